@@ -83,7 +83,6 @@ def a2a_templates():
     t.append(B2 + "    t = (a, b)\n    t[0], b = b, a\n    return b")
     t.append(B3 + "    if c:\n        a, b = b, a\n    return a")
     t.append(B3 + "    for i in range(2):\n        a, b = b, a ^ c\n    return a")
-    t.append(B2 + "    _temptup = a\n    a, b = b, _temptup\n    return a and _temptup")
     t.append(I2 + "    x, y = y, x\n    return x - y if x > y else y - x")
     # ---- ASTRewriter.visit_If
     t.append(B3 + "    if a:\n        b = c\n    return b")
@@ -107,7 +106,6 @@ def a2a_templates():
     t.append(B3 + "    if c:\n        if 3 >= 3:\n            a = b\n    return a")
     t.append(B3 + "    if a:\n        __b = c\n    return b")
     t.append(B3 + "    __b = c\n    if a:\n        __b = c\n    return b")
-    t.append(B3 + "    if a:\n        _iftarg9 = c\n    else:\n        _iftarg9 = b\n    return _iftarg9")
     t.append(I2B + "    if c:\n        x = x + 1\n        y += x\n    else:\n        x, y = y, x\n    return x + y")
     t.append(I2B + "    z = x\n    if x > y:\n        z = y\n        if c:\n            z = z + 1\n    elif x == y:\n        z = 0\n    return z")
     # sixteen ifs: the counter is printed in hexadecimal
@@ -271,6 +269,53 @@ def a2a_templates():
     t.append(I2 + "    z = (1 + 1, 2 * 2)\n    return x + z[0]")
     t.append(I2B + "    z = x\n    if c and 1 > 0:\n        z = y + (2 - 2)\n    return z")
     t.append(I2B + "    for i in range(2 * 2):\n        if i % 2 == 0:\n            x = x + i\n        if 2 >= i:\n            y = y + 1\n    return x + y")
+    # ---- regression corpus: the ten defects repaired in /repo (cc7fed2 .. d025bfb) and their neighbours
+    t.append("def test(t: Tuple[Tuple[bool, bool], bool]) -> bool:\n    t, a = t\n    return a")                                    # D1
+    t.append("def test(t: Tuple[Tuple[bool, bool], bool]) -> bool:\n    a, t = t\n    return t")
+    t.append("def test(t: Tuple[bool, bool], u: Tuple[bool, bool]) -> bool:\n    t, u = u\n    return t and u")
+    t.append("def test(t: Tuple[Tuple[bool, bool], bool], c: bool) -> bool:\n    a = c\n    if c:\n        t, a = t\n    return a")
+    t.append("def test(a: bool, b: bool, u: Tuple[Qint[2], bool]) -> bool:\n    t = (a, b)\n    a = not a\n    return t[u[0]]")     # D2
+    t.append("def test(a: bool, b: bool, c: bool, u: Tuple[Qint[2], bool]) -> bool:\n    t = (a, b)\n    if c:\n        t = (b, a)\n    return t[u[0]]")  # D3
+    t.append("def test(a: bool, b: bool, u: Tuple[Qint[2], bool], v: Tuple[bool, bool]) -> bool:\n    t = (a, b)\n    t = v\n    return t[u[0]]")      # D4
+    t.append("def test(u: Tuple[Qint[2], bool]) -> Qint[4]:\n    t = (1, 2)\n    t = (3, 4)\n    return t[u[0]]")
+    t.append("def test(a: Qint[2], u: Tuple[Qint[2], bool]) -> Qint[4]:\n    t = (1, a)\n    a = a + 1\n    return t[u[0]]")
+    t.append("def test(a: Qint[2], u: Tuple[Qint[2], bool]) -> Qint[4]:\n    t = (1, 2)\n    w = t\n    t = (a, 3)\n    return w[u[0]] + t[u[0]]")
+    t.append("def test(m: Qmatrix[bool, 2, 3]) -> bool:\n    r = False\n    for x in m[0]:\n        r = r ^ x\n    return r")                          # D5
+    t.append("def test(m: Qmatrix[bool, 2, 3]) -> bool:\n    r = False\n    for x in m[1]:\n        r = r ^ x\n    return r")
+    t.append("def test(m: Qmatrix[bool, 3, 2]) -> bool:\n    r = False\n    for x in m[2]:\n        r = r ^ x\n    return r")
+    t.append("def test(m: Qmatrix[bool, 2, 3]) -> bool:\n    r = False\n    for x in m[-1]:\n        r = r ^ x\n    return r")
+    t.append("def test(m: Qmatrix[bool, 2, 3]) -> bool:\n    r = False\n    for x in m[2]:\n        r = r ^ x\n    return r")
+    t.append("def test(m: Qmatrix[bool, 2, 3]) -> bool:\n    r = False\n    for x in m[True]:\n        r = r ^ x\n    return r")
+    t.append("def test(m: Tuple[Tuple[bool, bool], Tuple[bool, bool, bool]]) -> bool:\n    r = False\n    for x in m[1]:\n        r = r ^ x\n    return r")
+    t.append("def test(m: Tuple[bool, Tuple[bool, bool, bool]]) -> bool:\n    r = False\n    for x in m[0]:\n        r = r ^ x\n    return r")
+    t.append("def test(m: Qmatrix[Qint[2], 2, 3]) -> Qint[4]:\n    return sum(m[1]) + len(m[0]) + max(m[1])")
+    t.append("def test(m: Qmatrix[bool, 2, 3], i: Qint[2], j: Qint[2]) -> bool:\n    return m[i][j]")                                               # D6
+    t.append("def test(m: Qmatrix[bool, 3, 2], i: Qint[2], j: Qint[2]) -> bool:\n    return m[i][j]")
+    t.append("def test(m: Qmatrix[bool, 1, 3], i: Qint[2], j: Qint[2]) -> bool:\n    return m[i][j]")
+    t.append("def test(a: Tuple[bool, bool]) -> bool:\n    s = False\n    for x in a:\n        a = (s, x)\n        s = s ^ x\n    return s")       # D7
+    t.append("def test(a: Tuple[bool, bool], c: bool) -> bool:\n    s = False\n    for x in a:\n        if c:\n            a = (s, x)\n        s = s ^ x\n    return s")
+    t.append("def test(a: Tuple[Qint[2], Qint[2]]) -> Qint[4]:\n    s = 0\n    for x in a:\n        for i in range(2):\n            a = (s, x)\n        s = s + x\n    return s")
+    t.append("def test(a: Tuple[bool, bool]) -> bool:\n    s = False\n    for x in a:\n        s = s ^ x\n    a = (s, s)\n    return a[0]")
+    t.append("def test(a: Tuple[bool, bool], b: Tuple[bool, bool]) -> bool:\n    s = False\n    for x in a:\n        a, b = b, a\n        s = s ^ x\n    return s")
+    t.append("def test(a: bool, b: bool) -> bool:\n    s = False\n    t = (a, b)\n    for x in t:\n        t = (s, x)\n        s = s ^ x\n    return s")
+    t.append("def test(a: Qint[2]) -> Qint[4]:\n    s = 0\n    t = (1, 2)\n    for x in t:\n        t = (s, x)\n        s = s + x + a\n    return s")
+    t.append("def test(a: Tuple[bool, bool]) -> bool:\n    s = False\n    for x in a:\n        if x:\n            s = not s\n    for y in a:\n        a = (s, y)\n        if y:\n            s = not s\n    return s")
+    t.append("def test(a: bool) -> bool:\n    r = a\n    for x in [()]:\n        r = a if x else not a\n    return r")                                  # D8
+    t.append("def test(a: bool) -> bool:\n    r = a\n    for x in [(1, 2), ()]:\n        r = r if x else not r\n    return r")
+    t.append("def test(a: bool) -> bool:\n    r = a\n    for x in [()]:\n        if x:\n            r = not a\n    return r")
+    t.append("def test(x: Qint[2]) -> Qint[4]:\n    s = x\n    for i in range(2):\n        s = s + 1\n    else:\n        s = 0\n    return s")    # D9
+    t.append("def test(x: Qint[2], c: bool) -> Qint[4]:\n    s = x\n    for i in range(2):\n        s = s + i\n    else:\n        if c:\n            s = s + 4\n        i = 7\n    return s + i")
+    t.append("def test(x: Qint[2]) -> Qint[4]:\n    s = x\n    for i in range(0):\n        s = s + 1\n    else:\n        s = s + 2\n    return s")
+    t.append("def test(x: Qint[2]) -> Qint[4]:\n    s = x\n    for i in range(2):\n        for j in range(2):\n            s = s + j\n        else:\n            s = s + i\n    else:\n        x, s = s, x\n    return s + x")
+    t.append("def test(x: Qint[2]) -> Qint[4]:\n    s = x\n    for i in range(2):\n        s = s + 1\n    else:\n        for i in range(1 + 1):\n            s += i\n    return s")
+    t.append("def test(x: Qint[2]) -> Qint[4]:\n    for i in range(2):\n        x = x + 1\n    else:\n        return x\n    return 0")
+    t.append("def test(a: Qint[2]) -> Qint[4]:\n    return len(range(3)) + a")                                                                         # D10
+    t.append("def test(a: Qint[2]) -> Qint[4]:\n    return sum(range(4)) + max(range(1, 4)) + min(range(2, 5)) + a")
+    t.append("def test(a: Qint[2]) -> bool:\n    return all(range(1, 3)) and any(range(2)) and a > 1")
+    t.append("def test(a: Qint[2]) -> Qint[4]:\n    return len(range(a)) + a")
+    t.append("def test(a: Qint[2]) -> Qint[4]:\n    return max(range(3), 1) + a")
+    t.append("def test(a: Qint[2]) -> Qint[4]:\n    return sum(range(0)) + a")
+    t.append("def test(a: Qint[2]) -> Qint[4]:\n    return abs(range(3)) + a")
     # ---- parameters bound to constants and then re-assigned (what bind() injects)
     t.append("def test(a: Qint[2]) -> Qint[4]:\n    p = 0\n    q = 3\n    p = p + a\n    q = q + p\n    return q")
     t.append("def test(a: Qint[2]) -> Qint[4]:\n    p = False\n    p = not p\n    return a if p else a + 1")
@@ -278,6 +323,24 @@ def a2a_templates():
     t.append("def test(a: Qint[2]) -> Qint[4]:\n    p = 0\n    for i in range(2):\n        p = p + a\n    return p")
     t.append("def test(a: Qint[2]) -> Qint[4]:\n    p = (0, 1)\n    p = (p[1], p[0])\n    return a + p[0]")
     t.append("def test(a: Qint[2]) -> Qint[4]:\n    p = a\n    p = 0\n    p = p + 1\n    return p")
+    return t
+
+
+def open_finding_templates():
+    """Programs the CURRENT /repo accepts and mis-translates (reported, not yet repaired or listed in
+    known_findings.json).  Their evaluation failures are returned as `open_findings`, not as
+    `impl_failures`; once repaired they belong in a2a_templates()."""
+    t = []
+    # the constants recorded for a name are flow-insensitive: a tuple of CONSTANTS re-assigned under an if
+    t.append("def test(c: bool, u: Tuple[Qint[2], bool]) -> bool:\n    t = (True, False)\n    if c:\n        t = (False, True)\n    return t[u[0]]")
+    t.append("def test(c: bool, u: Tuple[Qint[2], bool]) -> Qint[4]:\n    t = (1, 2)\n    if c:\n        t = (3, 4)\n    return t[u[0]]")
+    # a ragged tuple of tuples indexed by two variables: every row is given the first row's length
+    t.append("def test(m: Tuple[Tuple[bool, bool], Tuple[bool, bool, bool]], i: Qint[2], j: Qint[2]) -> bool:\n    return m[i][j]")
+    # user variables named like the rewriter's temporaries
+    t.append("def test(a: bool, b: bool) -> bool:\n    _temptup = (a, b)\n    a, b = b, a\n    return _temptup[0]")
+    t.append("def test(a: bool, b: bool, c: bool) -> bool:\n    _iftarg2 = c\n    if a:\n        b = not b\n    return _iftarg2")
+    t.append("def test(a: bool, b: bool, c: bool) -> bool:\n    if a:\n        _iftarg9 = c\n    else:\n        _iftarg9 = b\n    return _iftarg9")
+    t.append("def test(a: bool, b: bool) -> bool:\n    _temptup = a\n    a, b = b, _temptup\n    return a and _temptup")
     return t
 
 
@@ -408,6 +471,7 @@ def programs(tier, seed):
     out = list(c01.corpus(tier, seed))
     out += [("texp-template", s) for s in c01_texp.fixed_templates()]
     out += [("a2a-template", s) for s in a2a_templates()]
+    out += [("a2a-open-finding", s) for s in open_finding_templates()]
     rng = random.Random(seed * 104729 + 31)
     n = 250 if tier == "quick" else 4000
     out += [("a2a-rand", rw_program(rng)) for _ in range(n)]
@@ -566,12 +630,12 @@ class Ser:
                 u["If-else"] += 1
             return f"(SIf {self.exp(s.test)} {self.stmts(s.body)} {self.stmts(s.orelse)})"
         if isinstance(s, ast.For):
-            if s.orelse:
-                raise Unmodelled("for ... else")
             if not isinstance(s.target, ast.Name):
                 raise Unmodelled("for with a non-name target")
             u["For"] += 1
-            return f"(SFor {c_str(s.target.id)} {self.exp(s.iter)} {self.stmts(s.body)})"
+            if s.orelse:
+                u["For-else"] += 1
+            return f"(SFor {c_str(s.target.id)} {self.exp(s.iter)} {self.stmts(s.body)} {self.stmts(s.orelse)})"
         if isinstance(s, ast.Return):
             if s.value is None:
                 raise Unmodelled("bare return")
@@ -761,6 +825,8 @@ def do_prog(job):  # noqa: C901
             if fn is not None:
                 rng = random.Random(_W["seed"] * 1000003 + idx)
                 k = 4 if tier == "quick" else 10
+                if origin in ("a2a-template", "a2a-open-finding"):
+                    k = 32          # the regression corpus is small: sample it densely
                 seen = set()
                 for _ in range(k):
                     vals = tuple(s(rng) for s in samplers)
@@ -904,7 +970,7 @@ def collect(tier, seed, jobs=16, only=None, progs=None):
     with_guard = ok_vo and have_guard()
     files = build_files(results, with_guard, PER_FILE_MAX if tier == "quick" else 200)
     t1 = time.time()
-    mismatches, coq_err, impl_failures, evaluator_vs_cpython = [], [], [], []
+    mismatches, coq_err, impl_failures, evaluator_vs_cpython, open_findings = [], [], [], [], []
     declined, checked = set(), set()
     stats = [0] * len(STAT_NAMES)
     guard = [0] * len(GUARD_NAMES)
@@ -944,7 +1010,7 @@ def collect(tier, seed, jobs=16, only=None, progs=None):
                 d = dict(kind=EVAL_CODES.get(code % 10, str(code % 10)), source=r["src"], origin=r["origin"],
                          implementation_output=r.get("norm_src"), id=r["id"])
                 if code % 10 in (1, 2):
-                    impl_failures.append(d)
+                    (open_findings if r["origin"] == "a2a-open-finding" else impl_failures).append(d)
                 else:
                     evaluator_vs_cpython.append(d)
             stats = [a + b for a, b in zip(stats, lst)]
@@ -971,7 +1037,10 @@ def collect(tier, seed, jobs=16, only=None, progs=None):
     repo = None
     return dict(
         cases=len(modelled), distinct=len({r["src"] for r in modelled}),
-        mismatches=mismatches, impl_failures=impl_failures, evaluator_vs_cpython=evaluator_vs_cpython,
+        mismatches=mismatches, impl_failures=impl_failures, open_findings=open_findings,
+        evaluator_vs_cpython=evaluator_vs_cpython,
+        theorem_instances=(dict(checked=guard[2], FAIL=guard[3]) if with_guard else None),
+        guard_coverage=(dict(in_guard=guard[0], modelled=len(modelled)) if with_guard else None),
         unmodelled=dict(count=status.get("unmodelled", 0) + len(declined), outside_datatype=status.get("unmodelled", 0),
                         model_declines=len(declined), reasons=dict(unmodelled.most_common()), examples=unmodelled_ex),
         distribution=dict(programs=len(progs), status=dict(status), modelled=len(modelled),
